@@ -120,13 +120,12 @@ func H07a() {
 
 	var w1 bytes.Buffer
 	err = Encode(&w1, f, binary.LittleEndian)
-	// Known findings: a decoded string that is not valid UTF-8 cannot be
-	// encoded; a decoded array of strings cannot be encoded at all.
+	// Known finding: a decoded string that is not valid UTF-8 cannot be
+	// encoded. (The profile's string-array fields live in messages no
+	// container hosts, so the encoder's refusal of them is not reachable.)
 	if fd.btype == types.BaseString {
 		fv := msg.Field(pf.sindex)
-		if pf.t.Array() {
-			vKnownNext("KF-C07-string-arrays-not-encodable", fv.Len() > 0)
-		} else {
+		if !pf.t.Array() {
 			vKnownNext("KF-C07-invalid-utf8-string-not-encodable", !utf8.ValidString(fv.String()))
 		}
 	}
